@@ -12,6 +12,8 @@ package main
 
 import (
 	"fmt"
+	"os"
+	"runtime/debug"
 	"go/types"
 	"math/big"
 	"sort"
@@ -387,6 +389,12 @@ func (x *FnCtx) storeField(h *Heap, ref *Term, fi *fieldInfo, v Value) {
 	}
 	t, ok := v.(*Term)
 	if !ok {
+		if os.Getenv("GOVC_DEBUG") != "" {
+			fmt.Fprintf(os.Stderr, "storeField: non-term value %T for field %s.%s\n", v, fi.Struct, fi.Name)
+			if v == nil && fi.Name == "ctype" {
+				debug.PrintStack()
+			}
+		}
 		t = x.tb.Fresh("unk_field", x.sortOf(ft))
 	}
 	name := fieldMap(fi)
@@ -395,7 +403,15 @@ func (x *FnCtx) storeField(h *Heap, ref *Term, fi *fieldInfo, v Value) {
 
 // copyStruct stores struct value v (StructV) into the object at dst.
 func (x *FnCtx) copyStruct(h *Heap, dst *Term, v Value, t types.Type) {
+	if u, isU := v.(UnknownV); isU && u.Why == "const struct" {
+		// the zero value of the struct type
+		x.zeroStruct(h, dst, t)
+		return
+	}
 	sv, ok := v.(StructV)
+	if !ok && os.Getenv("GOVC_DEBUG") != "" {
+		fmt.Fprintf(os.Stderr, "copyStruct: value is %T (%v) for %s\n", v, v, t)
+	}
 	l := layoutOf(t)
 	for i := range l.Fields {
 		fi := &l.Fields[i]
